@@ -1451,6 +1451,10 @@ static int _handle_sm(xmpp_conn_t *const conn,
                 goto err_sm;
             }
             conn->sm_state->can_resume = 1;
+            /* a state loaded by xmpp_conn_restore_sm_state() still has the
+             * id of the session it was saved from */
+            if (conn->sm_state->id)
+                strophe_free(conn->ctx, conn->sm_state->id);
             conn->sm_state->id = strophe_strdup(conn->ctx, id);
         }
         /* We maybe have stuff in the SM queue if we tried to resume, but the
